@@ -56,30 +56,31 @@ type Exception struct {
 
 // C is the per-run checker context.
 type C struct {
-	P         *Program
-	Prop      string
-	Tier      string
-	Obs       []*Obligation
-	Counts    map[string]int // named instance counts
-	Mins      map[string]int // reviewed minimums for the counts
-	Notes     []string
-	Facts     *Facts
-	known     []Finding
-	excepted  []*Exception
-	seen      map[string]bool
-	la        *lockAnalysis
-	preMemo   map[*ssa.Function][]dfact
-	preBusy   map[*ssa.Function]bool
-	bce       map[string]bool
-	bceErr    error
-	aliasMemo map[string]string
-	scope     []string
-	wkMemo    map[*ssa.Function][]int
-	hookOwner *C
-	rllMemo   map[string]int
-	viaMemo   map[string]bool
-	sumMemo   map[string]Set
-	ctxMemo   map[string]bool
+	P           *Program
+	Prop        string
+	Tier        string
+	Obs         []*Obligation
+	Counts      map[string]int // named instance counts
+	Mins        map[string]int // reviewed minimums for the counts
+	Notes       []string
+	Facts       *Facts
+	known       []Finding
+	excepted    []*Exception
+	seen        map[string]bool
+	la          *lockAnalysis
+	preMemo     map[*ssa.Function][]dfact
+	preBusy     map[*ssa.Function]bool
+	bce         map[string]bool
+	bceErr      error
+	aliasMemo   map[string]string
+	scope       []string
+	wkMemo      map[*ssa.Function][]int
+	hookOwner   *C
+	rllMemo     map[string]int
+	viaMemo     map[string]bool
+	applyLoopFn *ssa.Function
+	sumMemo     map[string]Set
+	ctxMemo     map[string]bool
 }
 
 func (c *C) Count(name string, n int) { c.Counts[name] += n }
